@@ -35,6 +35,9 @@ import (
 	"github.com/prometheus/client_golang/prometheus"
 	"github.com/prometheus/prometheus/storage"
 	"github.com/prometheus/prometheus/tsdb"
+	"go.opentelemetry.io/collector/pdata/pcommon"
+	"go.opentelemetry.io/collector/pdata/pmetric"
+	"go.opentelemetry.io/collector/pdata/pmetric/pmetricotlp"
 	"google.golang.org/grpc"
 	"google.golang.org/grpc/codes"
 	"google.golang.org/grpc/status"
@@ -42,6 +45,7 @@ import (
 	"github.com/thanos-io/thanos/pkg/store/labelpb"
 	"github.com/thanos-io/thanos/pkg/store/storepb"
 	"github.com/thanos-io/thanos/pkg/store/storepb/prompb"
+	writev2 "github.com/thanos-io/thanos/pkg/store/storepb/prompb/io/prometheus/write/v2"
 )
 
 // ---------------------------------------------------------------------------------------------
@@ -392,7 +396,7 @@ func vfNewHarness(tb testing.TB, cfg vfConfig) *vfHarness {
 		ReceiverMode:      cfg.mode,
 		Endpoint:          "http://router:10901",
 	})
-	ring, err := NewMultiHashring(cfg.algo, cfg.rf, []HashringConfig{{Hashring: "vf", Endpoints: append([]Endpoint(nil), eps...)}}, nil)
+	ring, err := vfRing(cfg.algo, cfg.rf, eps)
 	if err != nil {
 		tb.Fatalf("harness: NewMultiHashring(%s, rf=%d, nodes=%d): %v", cfg.algo, cfg.rf, cfg.nodes, err)
 	}
@@ -402,13 +406,30 @@ func vfNewHarness(tb testing.TB, cfg vfConfig) *vfHarness {
 	return &vfHarness{tb: tb, cfg: cfg, h: h, peers: p, ring: ring, eps: eps}
 }
 
-// close releases everything that is (or will be) parked, waits for every dispatched write to complete
-// and stops the worker pools.
-func (hz *vfHarness) close() {
-	if hz.closed {
-		return
+// vfRing memoises hashrings: a ring is a pure function of (algorithm, replication factor, endpoints) and
+// is never mutated after construction (building a 6-node ketama ring costs ~7 ms, more than a whole case).
+var (
+	vfRingMu    sync.Mutex
+	vfRingCache = map[string]Hashring{}
+)
+
+func vfRing(algo HashringAlgorithm, rf uint64, eps []Endpoint) (Hashring, error) {
+	key := fmt.Sprintf("%s/%d/%d", algo, rf, len(eps))
+	vfRingMu.Lock()
+	defer vfRingMu.Unlock()
+	if r, ok := vfRingCache[key]; ok {
+		return r, nil
 	}
-	hz.closed = true
+	r, err := NewMultiHashring(algo, rf, []HashringConfig{{Hashring: "vf", Endpoints: append([]Endpoint(nil), eps...)}}, nil)
+	if err != nil {
+		return nil, err
+	}
+	vfRingCache[key] = r
+	return r, nil
+}
+
+// openAll releases everything that is parked and lets every later write pass without parking.
+func (hz *vfHarness) openAll() []*vfDest {
 	hz.peers.mu.Lock()
 	hz.peers.open = true
 	ds := append([]*vfDest(nil), hz.peers.dests...)
@@ -416,7 +437,18 @@ func (hz *vfHarness) close() {
 	for _, d := range ds {
 		hz.releaseNoWait(d)
 	}
-	for _, d := range ds {
+	return ds
+}
+
+// close releases everything that is parked, waits for every dispatched write to complete and stops the
+// worker pools. Callers that still have requests running must wait for them between openAll and close.
+func (hz *vfHarness) close() {
+	if hz.closed {
+		return
+	}
+	hz.closed = true
+	hz.openAll()
+	for _, d := range hz.destsSnapshot() {
 		<-d.done
 	}
 	_ = hz.peers.Close()
@@ -564,6 +596,14 @@ func vfV1Body(series []prompb.TimeSeries) []byte {
 	return snappy.Encode(nil, b)
 }
 
+func vfV2Body(req *writev2.Request) []byte {
+	b, err := proto.Marshal(req)
+	if err != nil {
+		panic(err)
+	}
+	return snappy.Encode(nil, b)
+}
+
 func (hz *vfHarness) httpV1(ctx context.Context, tenant string, replicaHeader uint64, body []byte) vfResult {
 	req := httptest.NewRequest(http.MethodPost, "/api/v1/receive", bytes.NewReader(body)).WithContext(ctx)
 	req.Header.Set(vfTenantHeader, tenant)
@@ -595,6 +635,36 @@ func (hz *vfHarness) httpOTLP(ctx context.Context, tenant string, replicaHeader 
 	rec := httptest.NewRecorder()
 	hz.h.receiveOTLPHTTP(rec, req)
 	return vfResult{status: rec.Code, body: rec.Body.String(), header: rec.Header()}
+}
+
+// vfOTLP builds an OTLP export request with one gauge data point per name and returns its protobuf
+// body together with the series the handler's own converter makes of it (used for harness
+// synchronisation and as the identity of the request's series).
+func vfOTLP(tb testing.TB, h *Handler, names []string, attr string) ([]byte, []prompb.TimeSeries) {
+	md := pmetric.NewMetrics()
+	sm := md.ResourceMetrics().AppendEmpty().ScopeMetrics().AppendEmpty()
+	for _, n := range names {
+		m := sm.Metrics().AppendEmpty()
+		m.SetName(n)
+		m.SetEmptyGauge()
+		dp := m.Gauge().DataPoints().AppendEmpty()
+		dp.SetTimestamp(pcommon.Timestamp(1_000_000_000))
+		dp.SetDoubleValue(1)
+		dp.Attributes().PutStr("a", attr)
+	}
+	body, err := pmetricotlp.NewExportRequestFromMetrics(md).MarshalProto()
+	if err != nil {
+		tb.Fatalf("harness: otlp marshal: %v", err)
+	}
+	series, _, err := h.convertToPrometheusFormat(context.Background(), md)
+	if err != nil {
+		tb.Fatalf("harness: otlp convert: %v", err)
+	}
+	out := make([]prompb.TimeSeries, len(series))
+	for i := range series {
+		out[i] = vfCloneSeries(series[i])
+	}
+	return body, out
 }
 
 // ---------------------------------------------------------------------------------------------
